@@ -56,6 +56,13 @@ enum ConnectionError {
     FailedToNegotiate { protocol: Option<ProtocolName>, substream_id: Option<SubstreamId>, error: SubstreamError },
 }
 
+/// debugging aid: `VERIF_SIMTRACE=1` prints what each SimNet connection task does
+fn simtrace(msg: impl FnOnce() -> String) {
+    if std::env::var_os("VERIF_SIMTRACE").is_some() {
+        eprintln!("[sim] {}", msg());
+    }
+}
+
 pub struct SimConnection {
     protocol_set: ProtocolSet,
     connection: yamux::ControlledConnection<End>,
@@ -144,6 +151,7 @@ impl SimConnection {
     async fn handle_yamux_substream(&mut self, substream: Option<Result<yamux::Stream, yamux::ConnectionError>>) -> litep2p::Result<bool> {
         match substream {
             Some(Ok(stream)) => {
+                simtrace(|| format!("conn {:?} to {}: inbound yamux stream", self.endpoint.connection_id(), self.peer));
                 let substream_id = self.script.0.lock().handle.as_ref().expect("handle").next_substream_id();
                 let protocols = self.protocol_set.protocols_with_keep_alives();
                 let Some(permit) = self.protocol_set.try_get_permit() else {
@@ -164,6 +172,7 @@ impl SimConnection {
                 Ok(false)
             }
             Some(Err(_)) | None => {
+                simtrace(|| format!("conn {:?} to {}: yamux connection ended", self.endpoint.connection_id(), self.peer));
                 self.protocol_set.report_connection_closed(self.peer, self.endpoint.connection_id()).await?;
                 Ok(true)
             }
@@ -172,6 +181,7 @@ impl SimConnection {
 
     /// mirrors `TcpConnection::handle_negotiated_substream`
     async fn handle_negotiated_substream(&mut self, result: Result<NegotiatedSubstream, ConnectionError>) -> litep2p::Result<()> {
+        simtrace(|| format!("conn {:?} to {}: negotiated substream result ok={} {}", self.endpoint.connection_id(), self.peer, result.is_ok(), result.as_ref().map(|s| format!("{:?} {}", s.direction, s.protocol)).unwrap_or_default()));
         match result {
             Err(error) => {
                 let (protocol, substream_id, error) = match error {
@@ -206,6 +216,7 @@ impl SimConnection {
     async fn handle_protocol_command(&mut self, command: Option<ProtocolCommand>) -> litep2p::Result<bool> {
         match command {
             Some(ProtocolCommand::OpenSubstream { protocol, fallback_names, substream_id, permit, keep_alive, .. }) => {
+                simtrace(|| format!("conn {:?} to {}: OpenSubstream {:?} {}", self.endpoint.connection_id(), self.peer, substream_id, protocol));
                 let control = self.control.clone();
                 // environment fault (not in the TCP file): this stream's opening can be held back by the explorer,
                 // standing for a slow round trip / a remote that is slow to negotiate this one stream
@@ -233,6 +244,7 @@ impl SimConnection {
                 Ok(false)
             }
             Some(ProtocolCommand::ForceClose) | None => {
+                simtrace(|| format!("conn {:?} to {}: ForceClose / command channel closed", self.endpoint.connection_id(), self.peer));
                 self.protocol_set.report_connection_closed(self.peer, self.endpoint.connection_id()).await?;
                 Ok(true)
             }
